@@ -697,7 +697,11 @@ class RunsStream(Stream):
             "directories whose names begin with a character on either side of `.`, `/` and `R` in code-point order (` spaced`, `!a`, `#tmp`, "
             "`(third-party)`, `+vendor`, `-x`; `.dot`, `0num`, `:c`, `@at`, `REUSE`, `Zed`, `~t`, non-ASCII; at top level, below `src/`, or "
             "nested in one another), each with an own REUSE.toml (a closest and an override table, resp. a closest half) whose licence "
-            "conflicts with what the outer REUSE.toml says about the same files): `lint --json`, `spdx`, `spdx --add-license-concluded` are run (a) serially, (b) with "
+            "conflicts with what the outer REUSE.toml says about the same files; in every other tree one to three special files — FIFO, UNIX socket, "
+            "character device — among the covered files (root, src/, any directory of the tree) and now and then below subprojects/x/; every run "
+            "through the worker pool, and every run on a tree with special files, is made in a forked child resp. a session of its own under a time "
+            "limit of 120 s, after which the whole process group is killed and the outcome `no result after 120 s` is compared like any other "
+            "— after the first such outcome the remaining pool runs of the check are not started): `lint --json`, `spdx`, `spdx --add-license-concluded` are run (a) serially, (b) with "
             "the real pool and with pools of 1, 3, 16 workers whose results come back in shuffled order, (c) with os.walk / glob "
             "handing out shuffled listings, (d) in child interpreters under 6 (thorough 16) PYTHONHASHSEED values and through "
             "`python -m reuse`, (e) from the root, a sub-directory, the parent and an unrelated directory, (f) with the root "
@@ -705,13 +709,22 @@ class RunsStream(Stream):
             "sorted, namespace uuid / timestamp / tool version dropped, printed paths mapped to the file they denote) and "
             "all runs of one tree must coincide; non-trivial = distinct trees with >= 5 files and a non-compliant verdict")
     KINDS = ["toml", "toml-partial", "dep5", "subprojects-root", "plain", "git", "git-submodule"]
+    #: seconds after which a run (the three commands in a forked child, or one `python -m reuse …`) that has not come back is
+    #: killed with its whole process group and counts as the outcome "no result after N s".  On these trees the three commands
+    #: take a few tenths of a second together; the limit is some hundred times that, so that it does not fire on a loaded machine.
+    LIMIT = 120
+
+    def __init__(self):
+        self._hung = None       # label of the first run of this check that never came back (later trees skip the pool runs)
 
     def cases(self, tier, rng):
         n = 35 if tier == "thorough" else 7
         for i in range(n):
             yield {"seed": rng.randrange(1 << 30), "kind": self.KINDS[i % len(self.KINDS)],
                    "seeds": HASHSEEDS_THOROUGH if tier == "thorough" else HASHSEEDS_QUICK,
-                   "plus": R.PLUS_MODES[i % len(R.PLUS_MODES)]}
+                   "plus": R.PLUS_MODES[i % len(R.PLUS_MODES)],
+                   # every other tree holds one to three special files (FIFO, socket, character device) among its covered files
+                   "special": i % 2 == 0}
 
     def impl(self, case):
         import logging
@@ -747,11 +760,40 @@ class RunsStream(Stream):
                             fp.write("gitdir: %s\n" % os.path.relpath(os.path.join(root, ".git", "modules", place), sroot))
                 _git(["add", ".gitmodules"], root)
             os.makedirs(os.path.join(root, "src"), exist_ok=True)
+            specials = []
+            if case.get("special"):
+                specials = [(p, R.make_special(root, p, what), cov) for p, what, cov in R.gen_specials(case["seed"], case["kind"], files)]
             rr = os.path.realpath(root)
             logging.disable(logging.CRITICAL)
             try:
                 serial = ["--no-multiprocessing"]
-                base_out = R.norm_all(R.run_three(root, None, serial), root, rr)
+                import time
+                limit = self.LIMIT
+                skipped = []
+
+                def three(label, cwd, ra, flags):
+                    """the three commands; through the worker pool, and on a tree with special files, in a forked child under the
+                    time limit: a run that never comes back is the outcome "no result after N s", compared like any other"""
+                    if not specials and "--no-multiprocessing" in flags:
+                        return R.run_three(cwd, ra, flags)
+                    raw, timed_out = R.run_three_bounded(cwd, ra, flags, limit)
+                    if timed_out and self._hung is None:
+                        self._hung = label
+                    return raw
+
+                def pool_runs_allowed(label):
+                    # after the first run that never came back the remaining pool runs of this check are not started (each would
+                    # cost the full time limit); the violation is reported from the run that hung
+                    if self._hung is not None:
+                        skipped.append(label)
+                        return False
+                    return True
+
+                base_raw = three("serial run in the root", root, None, serial)
+                base_out = R.norm_all(base_raw, root, rr)
+                if specials and isinstance(base_out["lint_exit"], str):
+                    return json.dumps({"configs": 1, "files": -1, "compliant": None, "tracebacks": [], "diffs": [],
+                                       "base_no_result": base_out["lint_exit"], "specials": specials})
 
                 def check(label, raw, cwd):
                     nonlocal nconf
@@ -761,18 +803,21 @@ class RunsStream(Stream):
                         diffs.append([label, _diff(base_out, got)])
 
                 # (d) hash seeds — started first, collected last
+                t_spawn = time.time()
                 children = [(hs, R.spawn_seed(root, "-", serial, hs)) for hs in case["seeds"]]
                 cli_children = [(hs, key, R.spawn_cli(root, args, hs)) for hs in case["seeds"][:2]
-                                for key, args in (("lint", ["lint", "--json"]), ("spdx", ["spdx"]))]
+                                for key, args in (("lint", ["lint", "--json"]), ("spdx", ["spdx"]))] if pool_runs_allowed("python -m reuse") else []
                 # (b) pools
-                check("pool:real", R.run_three(root, None, []), root)
+                if pool_runs_allowed("pool:real"):
+                    check("pool:real", three("pool:real", root, None, []), root)
                 for n in (1, 3, 16):
-                    with patched_pool(n, case["seed"] + n):
-                        check("pool:%d-workers-shuffled" % n, R.run_three(root, None, []), root)
+                    if pool_runs_allowed("pool:%d-workers-shuffled" % n):
+                        with patched_pool(n, case["seed"] + n):
+                            check("pool:%d-workers-shuffled" % n, three("pool:%d-workers-shuffled" % n, root, None, []), root)
                 # (c) listing order
                 for k in range(3):
                     with shuffled_fs(case["seed"] + k):
-                        check("listing-order:%d" % k, R.run_three(root, None, serial), root)
+                        check("listing-order:%d" % k, three("listing-order:%d" % k, root, None, serial), root)
                 # (e), (f) working directories and spellings
                 parent = os.path.dirname(root)
                 sub = os.path.join(root, "src")
@@ -786,28 +831,29 @@ class RunsStream(Stream):
                 if case["kind"] in ("git", "git-submodule"):
                     confs.append(("cwd=sub (git finds the root)", sub, None))
                 for label, cwd, ra in confs:
-                    check(label, R.run_three(cwd, ra, serial), cwd)
+                    check(label, three(label, cwd, ra, serial), cwd)
                 if submodules:
                     # the same working directories and spellings once more with the submodules included: the reference is the run
                     # from the root with the same option
                     incl = serial + ["--include-submodules"]
-                    base_incl = R.norm_all(R.run_three(root, None, incl), root, rr)
+                    base_incl = R.norm_all(three("serial run in the root --include-submodules", root, None, incl), root, rr)
                     deep = os.path.join(root, os.path.dirname(submodules[0][0]) or "docs")
                     os.makedirs(deep, exist_ok=True)
                     for label, cwd, ra in confs + [("cwd=the submodule's parent directory (git finds the root)", deep, None),
                                                    ("cwd=the submodule's parent directory --root <abs>", deep, root)]:
                         nconf += 1
-                        got = R.norm_all(R.run_three(cwd, ra, incl), cwd, rr)
+                        got = R.norm_all(three(label + " --include-submodules", cwd, ra, incl), cwd, rr)
                         if got != base_incl:
                             diffs.append([label + " --include-submodules", _diff(base_incl, got)])
                     for label, cwd, ra in [("cwd=the submodule's parent directory (git finds the root)", deep, None),
                                            ("cwd=the submodule's parent directory --root <abs>", deep, root)]:
-                        check(label, R.run_three(cwd, ra, serial), cwd)
-                    with patched_pool(3, case["seed"]):
-                        nconf += 1
-                        got = R.norm_all(R.run_three(sub, "..", ["--include-submodules"]), sub, rr)
-                        if got != base_incl:
-                            diffs.append(["pool:3-workers-shuffled cwd=sub --root .. --include-submodules", _diff(base_incl, got)])
+                        check(label, three(label, cwd, ra, serial), cwd)
+                    if pool_runs_allowed("pool:3-workers-shuffled cwd=sub --root .. --include-submodules"):
+                        with patched_pool(3, case["seed"]):
+                            nconf += 1
+                            got = R.norm_all(three("pool:3-workers-shuffled --include-submodules", sub, "..", ["--include-submodules"]), sub, rr)
+                            if got != base_incl:
+                                diffs.append(["pool:3-workers-shuffled cwd=sub --root .. --include-submodules", _diff(base_incl, got)])
 
                     def below(out):
                         fs = [f["path"] for f in out["lint"].get("files", [])] if isinstance(out["lint"], dict) else []
@@ -816,16 +862,28 @@ class RunsStream(Stream):
                     truth = sorted(pl + "/" + f for pl, _, sf in submodules for f in sf
                                    if not f.startswith("LICENSES/") and not f.endswith("REUSE.toml"))
                     sub_truth = {"excluded": below(base_out), "included": below(base_incl), "expected": truth}
+                # the children have been running since t_spawn; each gets what is left of the time limit (and a little on top)
+                deadline = max(t_spawn + limit, time.time() + 15)
                 for hs, p in children:
-                    out = p.communicate()[0]
-                    try:
-                        raw = json.loads(out)
-                    except Exception:
-                        raw = {k: (99, "", "child failed") for k in ("lint", "spdx", "spdxc")}
+                    out = R.collect(p, deadline)
+                    if out is None:
+                        raw = R.no_result(limit)
+                        self._hung = self._hung or "PYTHONHASHSEED=%d" % hs
+                    else:
+                        try:
+                            raw = json.loads(out)
+                        except Exception:
+                            raw = {k: (99, "", "child failed") for k in ("lint", "spdx", "spdxc")}
                     check("PYTHONHASHSEED=%d" % hs, raw, root)
                 for hs, key, p in cli_children:
-                    out = p.communicate()[0].decode("utf-8", "replace")
+                    out = R.collect(p, deadline)
                     nconf += 1
+                    if out is None:
+                        self._hung = self._hung or "python -m reuse %s" % key
+                        diffs.append(["python -m reuse %s, PYTHONHASHSEED=%d" % (key, hs),
+                                      "%s_exit: %s <> \"no result after %d s (process group killed)\"" % (key, base_out[key + "_exit"], limit)])
+                        continue
+                    out = out.decode("utf-8", "replace")
                     got = R.norm_lint(out, root, rr) if key == "lint" else R.norm_spdx(out)
                     if got != base_out[key] or (p.returncode != base_out[key + "_exit"]):
                         diffs.append(["python -m reuse %s, PYTHONHASHSEED=%d" % (key, hs),
@@ -833,13 +891,21 @@ class RunsStream(Stream):
             finally:
                 logging.disable(logging.NOTSET)
         files_n = len(base_out["lint"].get("files", [])) if isinstance(base_out["lint"], dict) else -1
+        extra = {}
+        if specials:
+            re_ = base_out["lint"].get("non_compliant", {}).get("read_errors", []) if isinstance(base_out["lint"], dict) else []
+            extra = {"specials": specials, "special_read_errors": sorted(re_)}
+        if skipped:
+            extra["skipped_after_a_hang"] = skipped
         return json.dumps({"configs": nconf, "files": files_n, "compliant": base_out["lint"].get("summary", {}).get("compliant"),
-                           "tracebacks": base_out["tracebacks"], "diffs": diffs, **({"submodules": sub_truth} if submodules else {})})
+                           "tracebacks": base_out["tracebacks"], "diffs": diffs, **({"submodules": sub_truth} if submodules else {}), **extra})
 
     def oracle(self, case, impl_out):
         if impl_out.startswith("EXC"):
             return "runs-crash: " + impl_out
         r = json.loads(impl_out)
+        if r.get("base_no_result"):
+            return "runs-no-result: the serial run in the root: %s (special files %s)" % (r["base_no_result"], r.get("specials"))
         if r["tracebacks"]:
             return "runs-traceback: " + "; ".join(r["tracebacks"])[:300]
         sm = r.get("submodules")
@@ -864,7 +930,8 @@ class RunsStream(Stream):
 
     def show(self, case):
         name, files = R.gen_tree(case["seed"], case["kind"], case.get("plus"))
-        return {"seed": case["seed"], "kind": case["kind"], "plus": case.get("plus"), "root_name": name, "files": sorted(files)[:60]}
+        return {"seed": case["seed"], "kind": case["kind"], "plus": case.get("plus"), "root_name": name, "files": sorted(files)[:60],
+                "special_files": R.gen_specials(case["seed"], case["kind"], files) if case.get("special") else []}
 
 
 def table_roundtrip():
